@@ -1171,10 +1171,31 @@ func (m *Model) readFile(c *Conn, r Req, what string) error {
 	} else if want > size-int64(r.Off) {
 		want = size - int64(r.Off)
 	}
+	if want > 1<<31-1 {
+		want = 1<<31 - 1 // the announced length is a signed 32-bit number: more cannot be delivered by one request
+	}
 	if k != want {
 		return failf("read-announce", "%s on object of size %d: announced %d, expected %d", what, size, k, want)
 	}
 	if k == 0 {
+		return nil
+	}
+	if m.Lenient != nil {
+		// with faults injected the transfer may end after a correct prefix (the length was announced before the
+		// data was read): "a correct prefix followed by disconnection"
+		body, closed, err := c.ReadN(int(k))
+		if err != nil {
+			return err
+		}
+		if ok, d := objMatch(m.ro.obj, int64(r.Off), body); !ok {
+			return failf("read-prefix", "%s: received bytes differ from the object's bytes at +%d", what, d)
+		}
+		if closed {
+			m.Ended = true
+			if !m.lenient() {
+				return failf("reply-layout", "%s: connection ended after %d of %d announced bytes without any fault", what, len(body), k)
+			}
+		}
 		return nil
 	}
 	body, err := m.readFixed(c, int(k), what)
@@ -1528,6 +1549,13 @@ func (m *Model) remove(c *Conn, r Req, pr *pre, what string) error {
 		}
 		if aerr == nil {
 			return failf("remove-truth", "%s reported success but %s still exists", what, clean)
+		}
+		// exactly the named effect: delete removes files (and links), rmdir removes directories
+		if r.Op == "DELETE" && before.IsDir() {
+			return failf("remove-named-effect", "%s removed the directory %s", what, clean)
+		}
+		if r.Op == "RMDIR" && !before.IsDir() {
+			return failf("remove-named-effect", "%s removed %s, which is no directory", what, clean)
 		}
 		// nothing else changed
 		m.touched(real)
